@@ -994,7 +994,50 @@ def weave_builders_readonly(u):
     sb.insert_before('consistency_checker :', 'pub ')
     u.dropped.append('readonly.rs / stack.rs: #[derive(Default, Derivative)] on the two builder structs; their fields are widened to `pub` (T9) for the contracts')
     ib = u.item('src/readonly.rs', ['impl ReadOnlyCacheBuilder'])
-    ib.drop_members_except({'arc_consistency_checker', 'build'})
+    ib.drop_members_except({'arc_consistency_checker', 'build', 'plain', 'sharded', 'cache'})
+    u.text('''
+/// T2: `self.stack.push(Box::new(level))` (Vec::push has no usable specification for `Box<dyn Trait>` elements in this Verus).
+#[verifier::external_body]
+pub fn push_level(v: &mut Vec<Box<dyn ReadSide>>, b: Box<dyn ReadSide>)
+    ensures
+        final(v)@.len() == old(v)@.len() + 1,
+        final(v)@.drop_last() == old(v)@,
+        final(v)@.last() == b,
+{
+    unimplemented!()
+}
+''')
+    APPENDED = ('r.consistency_checker == old(self).consistency_checker && r.stack@.len() == old(self).stack@.len() + 1 && r.stack@.drop_last() == old(self).stack@ '
+                '&& r.stack@.last().level_wf() && *final(self) == *final(r)')
+    pl = u.under_contract(ib.sub(['fn plain']), ['C13', 'C14'])
+    pl.air = 'readonly::ReadOnlyCacheBuilder::plain'
+    pl.replace('path : impl AsRef < Path >', 'path: &Path', 'T11-into-identity')
+    pl.replace('path . as_ref ( )', 'path', 'T11-into-identity')
+    if pl._find('self . stack . push (', count=True):
+        pl.replace('self . stack . push (', 'push_level(&mut self.stack, ', 'T2-rebind')
+    pl.contract(ensures=[
+        ('C13:a-new-level-is-appended-at-the-end-of-the-search-list', APPENDED),
+        ('C13:the-new-level-is-the-plain-directory-at-that-path',
+         'forall|links: Map<PathV, InodeId>, key: Key| #[trigger] r.stack@.last().lookup(links, key) == plain_lookup(links, pv(path), str_bytes(key.name))'),
+    ])
+    pl.body_start('broadcast use group_asref;\n        let ghost s0 = self.stack@;')
+    pl.insert_before('self', 'proof { lemma_child(pv(path), temp_name()); }\n        ', nth=-1)
+    sh_ = u.under_contract(ib.sub(['fn sharded']), ['C13', 'C14', 'C12'])
+    sh_.air = 'readonly::ReadOnlyCacheBuilder::sharded'
+    sh_.replace('path : impl AsRef < Path >', 'path: &Path', 'T11-into-identity')
+    sh_.replace('path . as_ref ( )', 'path', 'T11-into-identity')
+    if sh_._find('self . stack . push (', count=True):
+        sh_.replace('self . stack . push (', 'push_level(&mut self.stack, ', 'T2-rebind')
+    sh_.contract(ensures=[
+        ('C13:a-new-level-is-appended-at-the-end-of-the-search-list', APPENDED),
+        ('C13 C12:the-new-level-is-the-sharded-directory-at-that-path',
+         'forall|links: Map<PathV, InodeId>, key: Key| #[trigger] r.stack@.last().lookup(links, key) == sharded_lookup(links, pv(path), if num_shards < 2 { 2usize } else { num_shards }, key)'),
+    ])
+    sh_.body_start('broadcast use group_asref;\n        let ghost s0 = self.stack@;')
+    ca = u.under_contract(ib.sub(['fn cache']), ['C13', 'C14', 'C12'])
+    ca.air = 'readonly::ReadOnlyCacheBuilder::cache'
+    ca.replace('path : impl AsRef < Path >', 'path: &Path', 'T11-into-identity')
+    ca.contract(ensures=[('C13:a-new-level-is-appended-at-the-end-of-the-search-list', APPENDED)])
     a = u.under_contract(ib.sub(['fn arc_consistency_checker']), ['C14'])
     a.air = 'readonly::ReadOnlyCacheBuilder::arc_consistency_checker'
     a.drop_attrs()
@@ -1021,7 +1064,49 @@ impl CacheBuilder {
 }
 ''')
     ic = u.item('src/stack.rs', ['impl CacheBuilder'])
-    ic.drop_members_except({'arc_consistency_checker', 'clear_consistency_checker', 'auto_sync', 'build'})
+    ic.drop_members_except({'arc_consistency_checker', 'clear_consistency_checker', 'auto_sync', 'build', 'reader', 'plain_reader', 'sharded_reader',
+                            'writer', 'plain_writer', 'sharded_writer'})
+    u.text('''
+/// T2: `let _ = self.write_side.insert(Arc::new(cache))` (Option::insert of an `Arc<dyn Trait>`).
+#[verifier::external_body]
+pub fn set_writer(o: &mut Option<Arc<dyn FullCache>>, a: Arc<dyn FullCache>)
+    ensures
+        final(o).is_some(),
+        final(o).unwrap() == a,
+{
+    unimplemented!()
+}
+''')
+    SAME_REST = ('r.consistency_checker == old(self).consistency_checker && r.read_side.consistency_checker == old(self).read_side.consistency_checker '
+                 '&& r.auto_sync == old(self).auto_sync && *final(self) == *final(r)')
+    RD_APP = ('r.write_side == old(self).write_side && r.read_side.stack@.len() == old(self).read_side.stack@.len() + 1 '
+              '&& r.read_side.stack@.drop_last() == old(self).read_side.stack@ && r.read_side.stack@.last().level_wf()')
+    for name, extra in (('plain_reader', 'forall|links: Map<PathV, InodeId>, key: Key| #[trigger] r.read_side.stack@.last().lookup(links, key) == plain_lookup(links, pv(path), str_bytes(key.name))'),
+                        ('sharded_reader', 'forall|links: Map<PathV, InodeId>, key: Key| #[trigger] r.read_side.stack@.last().lookup(links, key) == sharded_lookup(links, pv(path), if num_shards < 2 { 2usize } else { num_shards }, key)'),
+                        ('reader', None)):
+        m = u.under_contract(ic.sub(['fn ' + name]), ['C13', 'C14', 'C12'])
+        m.air = 'stack::CacheBuilder::' + name
+        m.replace('path : impl AsRef < Path >', 'path: &Path', 'T11-into-identity')
+        ens = [('C13:a-new-read-only-level-is-appended-at-the-end-of-the-search-list', RD_APP), ('C14', SAME_REST)]
+        if extra:
+            ens.append(('C13 C12:the-new-level-looks-up-that-directory', extra))
+        m.contract(ensures=ens)
+    for name, extra in (('plain_writer', 'forall|links: Map<PathV, InodeId>, key: Key| #[trigger] r.write_side.unwrap().lookup(links, key) == plain_lookup(links, pv(path), str_bytes(key.name))'),
+                        ('sharded_writer', 'forall|links: Map<PathV, InodeId>, key: Key| #[trigger] r.write_side.unwrap().lookup(links, key) == sharded_lookup(links, pv(path), if num_shards < 2 { 2usize } else { num_shards }, key)'),
+                        ('writer', None)):
+        m = u.under_contract(ic.sub(['fn ' + name]), ['C13', 'C14', 'C12'])
+        m.air = 'stack::CacheBuilder::' + name
+        m.replace('path : impl AsRef < Path >', 'path: &Path', 'T11-into-identity')
+        if name != 'writer':
+            m.replace('path . as_ref ( )', 'path', 'T11-into-identity')
+            m.replace('let _ = self . write_side . insert (', 'set_writer(&mut self.write_side, ', 'T2-rebind')
+            m.body_start('broadcast use group_asref;')
+            m.insert_before('self', 'proof { lemma_child(pv(path), temp_name()); }\n        ', nth=-1)
+        ens = [('C13:the-write-cache-is-replaced-and-the-search-list-is-untouched', 'r.write_side.is_some() && r.write_side.unwrap().level_wf() && r.read_side.stack == old(self).read_side.stack'),
+               ('C14', SAME_REST)]
+        if extra:
+            ens.append(('C13 C12:the-write-cache-is-that-directory', extra))
+        m.contract(ensures=ens)
     KEEPS = 'r.write_side == old(self).write_side && r.read_side.stack == old(self).read_side.stack'
     a = u.under_contract(ic.sub(['fn arc_consistency_checker']), ['C14'])
     a.air = 'stack::CacheBuilder::arc_consistency_checker'
